@@ -337,6 +337,19 @@ func c08(c *ev.Ctx) {
 		add(c08Case{Kind: "text", Script: s})
 		add(c08Case{Kind: "text", Script: s, NoOpt: true})
 	}
+	// every kind of syntax node in the positions where the compiler and the parser ask for
+	// a node's text: called like a function, as a key of a hash with several keys, as the
+	// value of a repeated key, after a dot, as a call argument of such a call
+	nodes := []string{"a", "1", "1.5", `"s"`, "/re/i", "true", "null", "-x", "!x", "√x", "a + b", "a ? b : c", "a[0]", "a.b", "f(1)", "[1, 2]", "[]", `{"k": 1}`, "{}", "(a)", "1..3", "a = 1", "a += 1", "a++",
+		"if (a) { 1 }", "if (a) { }", "if (a) { 1 } else { 2 }", "if (a) { 1 } else { }", "if (a) { } else { }", "if (a) { } else if (b) { }", "while (a) { }", "while (a) { 1 }", "for (a) { }", "foreach x in [1] { }", "foreach i, x in a { 1 }",
+		"switch (a) { }", "switch (a) { case 1 { } }", "switch (a) { default { } }", "switch (a) { case 1, 2 { 3 } default { } }", "function g() { }", "function g(a, b) { return a; }", "return 1", "local z"}
+	for _, n := range nodes {
+		for _, form := range []string{"%s (1);", "%s (1, 2) (3);", "x = {%s: 1, 2: 3};", "x = {1: %s, 1: %s};", "x = {%s: 1, %s: 2, 3: 4};", "x = h.%s;", "x = g(%s (1));", "x = [%s (1)];", "return %s (1);", "%s; (1);", "y = 1; %s (y)"} {
+			sc := strings.ReplaceAll(form, "%s", n)
+			add(c08Case{Kind: "text", Script: sc})
+			add(c08Case{Kind: "text", Script: "function outer(a) { " + sc + " } outer(1);", NoOpt: true})
+		}
+	}
 	// hostile objects
 	fields := []string{"F0", "F1", "F2", "F3", "f1", "A", "M", "T"}
 	oscripts := c08ObjectScripts(fields)
